@@ -272,7 +272,7 @@ def make_shapes():
 
 
 VOCAB = [":class: a", ":name: b", ":bogus: c", ":class:", "", "text", "---", "----", "class: a", "  indented",
-         ":::", "   "]
+         ":::", "   ", ":Class: A"]   # (option names are case-sensitive: 'Class' is not a declared option)
 FIRST_LINES = ["", "one", "one two three", "arg  ", "  ", "one  two   three", "a\tb  c d", " lead two"]
 
 
@@ -357,7 +357,8 @@ def registry_case(draw, names):
         if keys and draw(st.integers(0, 4)) > 0:
             key = draw(st.sampled_from(keys))
         else:
-            key = draw(st.sampled_from(["bogus", "nosuch", "class", "name"]))
+            key = draw(st.sampled_from(["bogus", "nosuch", "class", "name"]
+                                       + ([keys[0].upper(), keys[-1].capitalize()] if keys else ["Class"])))
         opts.append((key, draw(st.sampled_from(VALUE_POOL))))
     style = draw(st.sampled_from(["colon", "dash", "none"]))
     blank_after = draw(st.integers(0, 2))
